@@ -334,6 +334,8 @@ def run_task(task):
 
     def witness(m):
         w = dict(files={}, blocks=[])
+        if task.get('order'):
+            w['slow_ok'] = 0.4      # many scripts in flight: healthy ones take their time, a failing one is done at once
         if getattr(holder.get('I'), '_cores', None) is not None:
             w['cores'] = mval(m, holder['I']._cores)
         for path, src, _b in holder['files']:
@@ -542,6 +544,8 @@ def real_files(w, d):
                     body = 'function validate(ctx, content)\n  echo(ctx, content)\n  return %s\nend\n' % ret
                 if oc[0] == 'string':
                     body = body.replace('MSG', lua_q(oc[1]))
+                if w.get('slow_ok') and oc[0] in ('nil', 'string'):
+                    body = body.replace('  echo(ctx, content)\n', '  echo(ctx, content)\n  local t0 = os.clock()\n  while os.clock() - t0 < %s do end\n' % w['slow_ok'])
                 if oc[0] != 'read_error':
                     files[b['script']] = ('LOG = %s\n' % lua_q(logp) + ECHO + body).encode('latin1')
                 if oc[0] in FAIL_KINDS:
